@@ -150,6 +150,20 @@ Theorem C06_sync_windows : forall name spec0 q b ops,
 Proof. exact sync_windows. Qed.
 Print Assumptions C06_sync_windows.
 
+(* request level (dispatcher): every request a policy routes to the schema takes one token whatever its kind
+   (get, list, create, ..., and what the server calls long running: watch, pods/log, pods/exec, proxy); the
+   history is decided like the TryAcquire trace with the same clock readings, satisfies the window bounds and
+   the lower bound counted over ALL kinds, and what is not admitted is answered 429 *)
+Theorem C06_request_kind_irrelevant : forall q b reqs, cfg_std {| qps := q; burst := b |} ->
+  Forall (fun p : rkind * Z => 0 <= snd p) reqs ->
+  let ops := map (fun p : rkind * Z => OTry (snd p)) reqs in
+  map fst (req_run (rtb_new q b) reqs) = try_decisions (model_tr (rtb_new q b) ops) /\
+  Forall (fun a : bool * Z => snd a = if fst a then 200 else 429) (req_run (rtb_new q b) reqs) /\
+  let segs := segments {| qps := q; burst := b |} [] (model_tr (rtb_new q b) ops) in
+  all_segments closed_ok segs = true /\ all_segments open_ok segs = true /\ all_segments lower_ok segs = true.
+Proof. exact request_kind_irrelevant. Qed.
+Print Assumptions C06_request_kind_irrelevant.
+
 (* the model satisfies the executable specification that the check evaluates on the real decisions *)
 Theorem C06_spec_closed : forall c calls, cfg_ok c -> nonneg_calls calls ->
   closed_ok c (trace c init_st calls) = true.
@@ -240,6 +254,14 @@ Proof.
   constructor.
 Qed.
 Close Scope string_scope.
+
+(* (qps 1, burst 3): list, watch, pods/log, pods/exec, get at one instant: the first three are admitted,
+   the rest get 429 — the watch and the log request take tokens like any other *)
+Example C06_request_nonvacuous :
+  req_run (rtb_new 1 3) [(KList, 0); (KWatch, 0); (KLog, 0); (KExec, 0); (KGet, 0); (KWatch, 1000000000)]
+  = [(true, 200); (true, 200); (true, 200); (false, 429); (false, 429); (true, 200)]
+  /\ cfg_std {| qps := 1; burst := 3 |}.
+Proof. split; [vm_compute; reflexivity|unfold cfg_std, cfg_ok, cap, max_dur, NS; simpl; lia]. Qed.
 
 Example C06_resize_nonvacuous :
   let ops := [OTry 0; OTry 0; OResize 10 1; OTry 1; OResize 5 2; OTry 2; OTry 2; OTry 2] in
